@@ -407,6 +407,102 @@ Lemma mirror_example_ok :
   m_mode (mrun (mirror_example ++ settle 10)) = MStopped.
 Proof. repeat split; reflexivity. Qed.
 
+(* ---------- convergence for a cancelled remote unit ----------
+   IsComplete does not cover Canceled: the stdout monitor never returns for a cancelled remote
+   unit, it keeps looking once a second — but it fetches everything: the results stream of a
+   cancelled unit ends (repaired GetResults), the status copy carries the final size, and the
+   next look asks for what is missing. *)
+Lemma settle_converges_done s k :
+  minv s -> minv2 s ->
+  results_done (w_state (m_remote s)) = true -> is_complete (w_state (m_remote s)) = false ->
+  (length (m_remote_out s) + 4 <= k)%nat ->
+  let s' := mrun_from s (settle k) in
+  (m_mode s' = MIdle \/ m_mode s' = MStopped) /\ m_local s' = m_remote_out s' /\ m_remote s' = m_remote s.
+Proof.
+  intros Hi Hi2 Hd Hc Hk.
+  destruct Hi2 as [Hw [Hl Hs]].
+  assert (Hmeas : forall ph, (measure (m_remote s) ph <= length (repeat 65536%N k))%nat).
+  { intro ph. rewrite repeat_length. unfold m_remote_out in Hk.
+    destruct ph; simpl; try lia. destruct (rlen _ <=? pos); lia. }
+  unfold settle. rewrite !mrun_from_app, !repeat_map_poll.
+  set (s1 := mrun_from s (map MPoll (repeat 65536%N k))).
+  assert (H1 : m_remote s1 = m_remote s /\ minv s1 /\
+               (m_mode s1 = MStopped /\ m_lstate s1 = m_lstate s /\ m_lsize s1 = m_lsize s
+                                      /\ m_local s1 = m_local s /\ m_mode s = MStopped
+                \/ m_mode s1 = MIdle)).
+  { destruct (m_mode s) as [|start ph|] eqn:Em.
+    - unfold s1. rewrite polls_noop by (rewrite Em; discriminate). auto.
+    - pose proof (stream_runs_out (repeat 65536%N k) s start ph Em Hi Hw Hd (Hmeas ph))
+        as [A [B [C [D E]]]].
+      split; [exact C|]. split; [apply mrun_minv; exact Hi|]. right. exact A.
+    - unfold s1. rewrite polls_noop by (rewrite Em; discriminate). split; [reflexivity|].
+      split; [exact Hi|]. left. auto. }
+  destruct H1 as [Hr1 [Hi1 Hcase]].
+  destruct Hcase as [[Hm1 [Hls1 [Hlz1 [Hlo1 Hm0]]]]|Hm1].
+  - assert (E2 : mrun_from s1 [MSync; MLoop] = s1) by (simpl; rewrite Hm1; simpl; now rewrite Hm1).
+    rewrite E2. rewrite polls_noop by (rewrite Hm1; discriminate).
+    assert (E3 : mrun_from s1 [MLoop] = s1) by (simpl; now rewrite Hm1).
+    rewrite E3. split; [now right|]. split; [|exact Hr1].
+    destruct (Hs Hm0) as [Hc0 Hle]. destruct (Hl Hc0) as [_ Hsz].
+    destruct Hi1 as [Hp _]. rewrite Hp. apply firstn_all2.
+    unfold m_remote_out in *. rewrite Hr1, Hlo1. unfold rlen in *. lia.
+  - assert (Hsz : w_size (m_remote s) = rlen (w_output (m_remote s))) by (apply Hw; exact Hd).
+    set (s1a := mkM (m_remote s1) (w_state (m_remote s1)) (w_size (m_remote s1)) (m_local s1) MIdle).
+    assert (E2 : mrun_from s1 [MSync; MLoop] = mstep s1a MLoop).
+    { change (mrun_from s1 [MSync; MLoop]) with (mstep (mstep s1 MSync) MLoop).
+      now rewrite (msync_idle s1 Hm1). }
+    rewrite E2. rewrite (mloop_idle s1a eq_refl). cbn [s1a m_lstate m_lsize m_local m_remote].
+    rewrite Hr1, Hc. cbn [andb].
+    destruct (rlen (m_local s1) <? w_size (m_remote s)) eqn:E.
+    + set (s2 := mkM (m_remote s) (w_state (m_remote s)) (w_size (m_remote s)) (m_local s1)
+                     (MStream (rlen (m_local s1)) RWait)).
+      assert (Hi2 : minv s2).
+      { destruct Hi1 as [Hp _]. split; [|reflexivity].
+        unfold s2, m_remote_out in *. cbn [m_local m_remote]. rewrite Hr1 in Hp. exact Hp. }
+      pose proof (stream_runs_out (repeat 65536%N k) s2 _ _ eq_refl Hi2 Hw Hd (Hmeas RWait))
+        as [A [B [C [D E0]]]].
+      set (s3 := mrun_from s2 (map MPoll (repeat 65536%N k))) in *.
+      change (mrun_from s3 [MLoop]) with (mstep s3 MLoop).
+      rewrite (mloop_idle s3 A). rewrite D, E0. cbn [s2 m_lstate m_lsize]. rewrite Hc. cbn [andb].
+      assert (Hnl : (rlen (m_local s3) <? w_size (m_remote s)) = false).
+      { apply N.ltb_ge. rewrite B. unfold m_remote_out. rewrite C. cbn [s2 m_remote]. rewrite Hsz. lia. }
+      rewrite Hnl. split; [now left|]. split; [exact B|exact C].
+    + (* nothing is missing *)
+      fold s1a. rewrite polls_noop by (simpl; discriminate).
+      change (mrun_from s1a [MLoop]) with (mstep s1a MLoop).
+      rewrite (mloop_idle s1a eq_refl). cbn [s1a m_lstate m_lsize m_local m_remote].
+      rewrite Hr1, Hc, E. cbn [andb]. fold s1a.
+      split; [now left|]. split; [|exact Hr1].
+      unfold s1a, m_remote_out. cbn [m_local m_remote].
+      destruct Hi1 as [Hp _]. rewrite Hp. unfold m_remote_out. rewrite Hr1.
+      apply firstn_all2. apply N.ltb_ge in E. unfold rlen in *. lia.
+Qed.
+
+(* mirror_converges for every final state of the remote unit, Canceled included: once nothing
+   breaks any more the local output becomes equal to the remote output; the stdout monitor has
+   returned exactly if the state is one that IsComplete covers *)
+Theorem mirror_converges_done_thm : forall tr k,
+  contract (menv tr) = true ->
+  results_done (w_state (m_remote (mrun tr))) = true ->
+  (length (m_remote_out (mrun tr)) + 4 <= k)%nat ->
+  let s' := mrun_from (mrun tr) (settle k) in
+  m_local s' = m_remote_out s' /\ m_remote_out s' = m_remote_out (mrun tr) /\
+  (forall start ph, m_mode s' <> MStream start ph) /\
+  (is_complete (w_state (m_remote (mrun tr))) = true -> m_mode s' = MStopped).
+Proof.
+  intros tr k Hc Hd Hk. unfold contract in Hc. change world0 with (m_remote mstate0) in Hc.
+  rewrite mcontract_menv in Hc.
+  pose proof (mrun_minv tr mstate0 minv0) as Hi.
+  pose proof (mrun_minv2 tr mstate0 Hc minv2_0) as Hi2.
+  destruct (is_complete (w_state (m_remote (mrun tr)))) eqn:Ec.
+  - destruct (settle_converges (mrun tr) k Hi Hi2 Ec Hk) as [A [B C]].
+    split; [exact B|]. split; [unfold m_remote_out; now rewrite C|]. split; [|auto].
+    intros start ph. rewrite A. discriminate.
+  - destruct (settle_converges_done (mrun tr) k Hi Hi2 Hd Ec Hk) as [A [B C]].
+    split; [exact B|]. split; [unfold m_remote_out; now rewrite C|]. split; [|discriminate].
+    intros start ph. destruct A as [A|A]; rewrite A; discriminate.
+Qed.
+
 (* ---------- the header line, for every chunking ---------- *)
 Lemma split_nl_some c a rest : split_nl c = Some (a, rest) -> c = a ++ 10 :: rest /\ no_nl a = true.
 Proof.
